@@ -16,81 +16,108 @@ SKIP_TRAITS = ('fmt::Debug', 'clone::Clone', 'cmp::', 'hash::Hash', 'default::De
 
 # audited obligations: key -> one-line proof sketch.  Keys: <function>|<kind>|<normalised operands>
 AUDIT = {
-    # ---- ShiftAnd
     'shift_and::ShiftAnd::new|explicit-panic|begin_panic(lit)<&str>':
         'documented refusal: assert!(m <= 64) outside the length limit of C08',
-    'shift_and::Matches::next|overflow-add|x0,1': 'i is an Enumerate index of the text: i + 1 <= text length <= usize::MAX',
-    'shift_and::Matches::next|overflow-sub|Add(x0,1).0,arg1.shiftand.m':
+    'shift_and::Matches::next|overflow-add|(Iterator>::next(x0) as Some).0.0,1':
+        'i is an Enumerate index of the text: i + 1 <= text length <= usize::MAX',
+    'shift_and::Matches::next|overflow-sub|Add((Iterator>::next(x0) as Some).0.0,1).0,arg1.shiftand.m':
         'the accept bit (bit m-1) can only be set after m shifts, i.e. after at least m symbols: i + 1 >= m',
-    # ---- BNDM
     'bndm::BNDM::new|explicit-panic|begin_panic(lit)<&str>':
         'documented refusal: assert!(m <= 64) outside the length limit of C08',
     'bndm::Matches::next|overflow-sub|arg1.window,x0':
-        'j <= m <= window: active has at most m live bits, loses the top one per step, so the inner loop runs at most m '
-        'times; window starts at m and only grows',
+        'j <= m <= window: active has at most m live bits, loses the top one per step, so the inner loop runs at most m times; window starts at m and only grows',
     'bndm::Matches::next|bounds|idx=Sub(arg1.window,x0).0,len=PtrMetadata(arg1.text)':
         'window <= text.len() by the outer loop guard and j >= 1',
-    'bndm::Matches::next|overflow-sub|arg1.window,arg1.bndm.m': 'window >= m (starts at m, only grows)',
-    'bndm::Matches::next|overflow-add|x0,1': 'j <= m <= 64',
-    'bndm::Matches::next|overflow-sub|arg1.bndm.m,x0': 'lastsuffix is a value of j taken when j != m and j <= m, so < m',
+    'bndm::Matches::next|overflow-sub|arg1.window,arg1.bndm.m':
+        'window >= m (starts at m, only grows)',
+    'bndm::Matches::next|overflow-add|x0,1':
+        'j <= m <= 64',
+    'bndm::Matches::next|overflow-sub|arg1.bndm.m,x0':
+        'lastsuffix is a value of j taken when j != m and j <= m, so < m',
     'bndm::Matches::next|overflow-add|arg1.window,Sub(arg1.bndm.m,x0).0':
         'window <= text.len() <= isize::MAX and the shift is <= 64',
-    # ---- BOM
-    'bom::BOM::new|unwrap|expect(Iterator::max(Clone::clone(x0)),lit)<C>':
+    'bom::BOM::new|unwrap|expect(Iterator::max(Clone::clone(IntoIterator::into_iter(arg1))),lit)<C>':
         'documented refusal of the empty pattern (C08 quantifies over non-empty patterns)',
-    'bom::BOM::new|overflow-add|x0,1': 'm = pattern length <= isize::MAX',
-    'bom::BOM::new|index|index(x0,Sub(x1,1).0)<std::vec::Vec<std::option::Option<usize>>>':
+    'bom::BOM::new|overflow-add|ExactSizeIterator::len(IntoIterator::into_iter(arg1)),1':
+        'm = pattern length <= isize::MAX',
+    'bom::BOM::new|overflow-add|(Iterator>::next(x0) as Some).0.0,1':
+        'm = pattern length <= isize::MAX',
+    'bom::BOM::new|index|index(x0,Sub(Add((Iterator>::next(x1) as Some).0.0,1).0,1).0)<std::vec::Vec<std::option::Option<usize>>>':
         'suff has m + 1 entries and i - 1 = j < m',
-    'bom::BOM::new|index|index(x0,x1)<std::vec::Vec<vec_map::VecMap<usize>>>':
+    'bom::BOM::new|index|index(x0,(x1 as Some).0)<std::vec::Vec<vec_map::VecMap<usize>>>':
         'k_ is a suffix-link state < i - 1 + 1 = number of tables pushed so far (oracle construction invariant)',
-    'bom::BOM::new|index|index_mut(x0,x1)<std::vec::Vec<vec_map::VecMap<usize>>>':
+    'bom::BOM::new|index|index_mut(x0,(x1 as Some).0)<std::vec::Vec<vec_map::VecMap<usize>>>':
         'same state as the preceding contains_key test',
-    'bom::BOM::new|index|index(x0,x1)<std::vec::Vec<std::option::Option<usize>>>': 'k_ < i <= m and suff has m + 1 entries',
-    'bom::BOM::new|unwrap|unwrap(VecMap::get(Index<I>>::index(x0,x1),x2))<&usize>':
+    'bom::BOM::new|index|index(x0,(x1 as Some).0)<std::vec::Vec<std::option::Option<usize>>>':
+        'k_ < i <= m and suff has m + 1 entries',
+    'bom::BOM::new|unwrap|unwrap(VecMap::get(Index<I>>::index(x0,(x1 as Some).0),Borrow::borrow((Iterator>::next(x2) as Some).0.1)))<&usize>':
         'the loop left through `break` exactly when table[k].contains_key(a)',
-    'bom::BOM::new|index|index_mut(x0,x1)<std::vec::Vec<std::option::Option<usize>>>': 'i = j + 1 <= m, suff has m + 1 entries',
+    'bom::BOM::new|index|index_mut(x0,Add((Iterator>::next(x1) as Some).0.0,1).0)<std::vec::Vec<std::option::Option<usize>>>':
+        'i = j + 1 <= m, suff has m + 1 entries',
     'bom::BOM::delta|index|index(arg1.table,arg2)<std::vec::Vec<vec_map::VecMap<usize>>>':
         'guarded by q >= self.table.len() on the other branch',
-    'bom::Matches::next|overflow-sub|arg1.window,x0': 'j <= m (inner loop guard) and window >= m',
+    'bom::Matches::next|overflow-sub|arg1.window,x0':
+        'j <= m (inner loop guard) and window >= m',
     'bom::Matches::next|bounds|idx=Sub(arg1.window,x0).0,len=PtrMetadata(arg1.text)':
         'window <= text.len() by the outer guard and j >= 1',
-    'bom::Matches::next|overflow-add|x0,1': 'j <= m',
-    'bom::Matches::next|overflow-sub|arg1.window,arg1.bom.m': 'window >= m',
-    'bom::Matches::next|overflow-add|arg1.bom.m,2': 'm <= isize::MAX',
-    'bom::Matches::next|overflow-sub|Add(arg1.bom.m,2).0,x0': 'j <= m + 1 after the inner loop',
-    'bom::Matches::next|overflow-add|arg1.window,Sub(Add(arg1.bom.m,2).0,x0).0': 'window, m <= isize::MAX',
-    # ---- Horspool
-    'horspool::Horspool::new|overflow-sub|x0,1': 'non-empty pattern (quantifier of C08): m >= 1',
-    'horspool::Horspool::new|index|index(arg1,RangeTo::RangeTo{Sub(x0,1).0})<[u8]>': 'm - 1 <= m = pattern.len()',
-    'horspool::Horspool::new|overflow-sub|Sub(x0,1).0,x1': 'j enumerates pattern[..m-1]: j <= m - 2',
-    'horspool::Horspool::new|index|index_mut(x0,x1)<std::vec::Vec<usize>>': 'shift has 256 entries, index is a u8',
-    'horspool::Horspool::find_all|overflow-sub|arg1.m,1': 'm >= 1 (non-empty pattern)',
-    'horspool::Horspool::find_all|bounds|idx=Sub(arg1.m,1).0,len=PtrMetadata(arg1.pattern)': 'm = pattern.len() >= 1',
+    'bom::Matches::next|overflow-add|x0,1':
+        'j <= m',
+    'bom::Matches::next|overflow-sub|arg1.window,arg1.bom.m':
+        'window >= m',
+    'bom::Matches::next|overflow-add|arg1.bom.m,2':
+        'm <= isize::MAX',
+    'bom::Matches::next|overflow-sub|Add(arg1.bom.m,2).0,x0':
+        'j <= m + 1 after the inner loop',
+    'bom::Matches::next|overflow-add|arg1.window,Sub(Add(arg1.bom.m,2).0,x0).0':
+        'window, m <= isize::MAX',
+    'horspool::Horspool::new|overflow-sub|slice::len(arg1),1':
+        'non-empty pattern (quantifier of C08): m >= 1',
+    'horspool::Horspool::new|index|index(arg1,RangeTo::RangeTo{Sub(slice::len(arg1),1).0})<[u8]>':
+        'm - 1 <= m = pattern.len()',
+    'horspool::Horspool::new|overflow-sub|Sub(slice::len(arg1),1).0,(Iterator>::next(x0) as Some).0.0':
+        'j enumerates pattern[..m-1]: j <= m - 2',
+    'horspool::Horspool::new|index|index_mut(x0,(Iterator>::next(x1) as Some).0.1)<std::vec::Vec<usize>>':
+        'shift has 256 entries, index is a u8',
+    'horspool::Horspool::find_all|overflow-sub|arg1.m,1':
+        'm >= 1 (non-empty pattern)',
+    'horspool::Horspool::find_all|bounds|idx=Sub(arg1.m,1).0,len=PtrMetadata(arg1.pattern)':
+        'm = pattern.len() >= 1',
     'horspool::Matches::next|bounds|idx=arg1.last,len=PtrMetadata(arg1.text)':
         'guarded by last < n (= text.len()) in the same condition / by the early return on last >= n',
     'horspool::Matches::next|index|index(arg1.horspool.shift,arg1.text[arg1.last])<std::vec::Vec<usize>>':
         'shift has 256 entries, index is a u8',
     'horspool::Matches::next|overflow-add|arg1.last,Index<I>>::index(arg1.horspool.shift,arg1.text[arg1.last])':
         'last < n <= isize::MAX and shift <= m <= isize::MAX',
-    'horspool::Matches::next|overflow-sub|Add(arg1.last,1).0,arg1.horspool.m': 'last starts at m - 1 and only grows',
+    'horspool::Matches::next|overflow-sub|Add(arg1.last,1).0,arg1.horspool.m':
+        'last starts at m - 1 and only grows',
     'horspool::Matches::next|index|index(arg1.horspool.shift,arg1.pattern_last)<std::vec::Vec<usize>>':
         'shift has 256 entries, index is a u8',
     'horspool::Matches::next|overflow-add|arg1.last,Index<I>>::index(arg1.horspool.shift,arg1.pattern_last)':
         'last < n <= isize::MAX and shift <= m',
-    'horspool::Matches::next|index|index(arg1.text,Range::Range{x0,x1})<[u8]>': 'i = last + 1 - m <= j = last < n',
-    'horspool::Matches::next|overflow-sub|arg1.horspool.m,1': 'm >= 1',
+    'horspool::Matches::next|index|index(arg1.text,Range::Range{Sub(Add(arg1.last,1).0,arg1.horspool.m).0,arg1.last})<[u8]>':
+        'i = last + 1 - m <= j = last < n',
+    'horspool::Matches::next|overflow-sub|arg1.horspool.m,1':
+        'm >= 1',
     'horspool::Matches::next|index|index(arg1.horspool.pattern,RangeTo::RangeTo{Sub(arg1.horspool.m,1).0})<[u8]>':
         'm - 1 <= pattern.len()',
-    # ---- KMP
     'kmp::KMP::delta|bounds|idx=arg2,len=PtrMetadata(arg1.pattern)':
         'evaluated only when q != m (short-circuit / loop exit) and q <= m is the automaton state invariant',
-    'kmp::KMP::delta|overflow-sub|arg2,1': 'loop body entered only with q == m >= 1 or q > 0',
-    'kmp::KMP::delta|index|index(arg1.lps,Sub(arg2,1).0)<std::vec::Vec<usize>>': 'q - 1 < m = lps.len()',
-    'kmp::lps|bounds|idx=x0,len=PtrMetadata(arg1)': 'q <= i < m (q counts matched prefix symbols)',
-    'kmp::lps|index|index(x0,Sub(x1,1).0)<std::vec::Vec<usize>>': 'q - 1 < i < m = lps.len()',
-    'kmp::lps|index|index_mut(x0,x1)<std::vec::Vec<usize>>': 'i < m = lps.len()',
-    'kmp::Matches::next|overflow-add|1,x0': 'i is an Enumerate index',
-    'kmp::Matches::next|overflow-sub|Add(1,x0).0,arg1.kmp.m': 'q == m only after at least m symbols: i + 1 >= m',
+    'kmp::KMP::delta|overflow-sub|arg2,1':
+        'loop body entered only with q == m >= 1 or q > 0',
+    'kmp::KMP::delta|index|index(arg1.lps,Sub(arg2,1).0)<std::vec::Vec<usize>>':
+        'q - 1 < m = lps.len()',
+    'kmp::lps|bounds|idx=x0,len=PtrMetadata(arg1)':
+        'q <= i < m (q counts matched prefix symbols)',
+    'kmp::lps|bounds|idx=(range>::next(x0) as Some).0,len=PtrMetadata(arg1)':
+        'q <= i < m (q counts matched prefix symbols)',
+    'kmp::lps|index|index(x0,Sub(x1,1).0)<std::vec::Vec<usize>>':
+        'q - 1 < i < m = lps.len()',
+    'kmp::lps|index|index_mut(x0,(range>::next(x1) as Some).0)<std::vec::Vec<usize>>':
+        'i < m = lps.len()',
+    'kmp::Matches::next|overflow-add|1,(Iterator>::next(x0) as Some).0.0':
+        'i is an Enumerate index',
+    'kmp::Matches::next|overflow-sub|Add(1,(Iterator>::next(x0) as Some).0.0).0,arg1.kmp.m':
+        'q == m only after at least m symbols: i + 1 >= m',
 }
 
 
@@ -202,15 +229,15 @@ def po1(facts, rep):
     used_audit = set()
     total = auto = 0
     nbodies = 0
+    from .po_known import KNOWN
     for name, (mod, adt) in MATCHERS.items():
-        for b in matcher_bodies(facts, mod):
+        for b, nb, ia, obs in eng_po.scan(facts, matcher_bodies(facts, mod), KNOWN, field_inv=inv):
             nbodies += 1
             rep.analysed_body(b)
             # masks() is public; its obligations are discharged under the precondition established by all in-crate
             # callers (pattern length <= 64), which the interval analysis cannot see: iterations are not counted
-            ia = eng_po.Intervals(b, facts, field_inv=inv).run()
             seen = {}
-            for o in eng_po.obligations(b, ia):
+            for o in obs:
                 total += 1
                 k = '%s|%s|%s' % (fn_short(b.path), o['kind'], o['ops'])
                 # obligations sharing a key in one body are distinguished by ordinal only for reporting
